@@ -818,6 +818,58 @@ def rule_emptylist(program, ctx, prop=P, rid="C01.emptylist"):
         ctx.floors[rid] = 0
 
 
+def rule_modelconfig(program, ctx, prop=P, rid="C01.modelconfig"):
+    ctx.rule(
+        rid,
+        "NostrQuery has no model-wide string transformation (pydantic `str_to_lower` / `str_to_upper` / `str_strip_whitespace` / `str_max_length` in model_config or "
+        "a Config class): such an option also rewrites tag *names* and tag values inside `tags`, so `#E` is executed as `#e` and returns events that do not match",
+        floor=1,
+    )
+    ci = program.cls("nostr_relay.storage.base:NostrQuery")
+    bad = []
+    for st in ci.node.body:
+        if isinstance(st, (ast.Assign, ast.AnnAssign)) and any(dotted(t) == "model_config" for t in (st.targets if isinstance(st, ast.Assign) else [st.target])):
+            for k in ast.walk(st):
+                if isinstance(k, ast.keyword) and k.arg and k.arg.startswith("str_") or (isinstance(k, ast.Constant) and isinstance(k.value, str) and k.value.startswith("str_")):
+                    bad.append(st)
+        if isinstance(st, ast.ClassDef) and st.name == "Config":
+            for a in st.body:
+                if isinstance(a, ast.Assign) and any(dotted(t).startswith(("anystr_", "str_")) for t in a.targets):
+                    bad.append(a)
+    if bad:
+        ctx.bad(finding_at(prop, rid, bad[0], "NostrQuery transforms every string of a filter (`" + norm(bad[0], 60) + "`): tag names and tag values are case-folded / stripped too, the filter that is "
+                           "executed is not the one the client sent"))
+    else:
+        ctx.ok(rid, ci.node, "no model-wide string transformation on NostrQuery")
+
+
+def rule_badfilter(program, ctx, prop=P, rid="C01.badfilter"):
+    ctx.rule(
+        rid,
+        "SQL build_query: a filter whose evaluate_filter raised ValueError (empty / unusable list) contributes `false` - on every path from the ValueError handler to "
+        "`where.add(...)` the clauses collected before the raise are discarded (`subwhere` re-bound to an empty list, or the literal 'false' added)",
+        floor=1,
+    )
+    fn = program.func("nostr_relay.storage.db:Subscription.build_query")
+    cfg = cfg_of(fn)
+    handlers = [h for t in ast.walk(fn) if isinstance(t, ast.Try) for h in t.handlers if h.type is not None and "ValueError" in ast.unparse(h.type)
+                and any(isinstance(c, ast.Call) and call_name(c).endswith("evaluate_filter") for s_ in t.body for c in ast.walk(s_))]
+    if not handlers:
+        ctx.bad(finding_func(prop, rid, fn, "build_query no longer handles the ValueError of an unusable filter", text="def build_query(...) :: ValueError"))
+        return
+    adds = cfg.stmt_nodes(lambda st: any(isinstance(c.func, ast.Attribute) and c.func.attr in ("add", "append") and dotted(c.func.value) == "where" for c in own_calls(st)), kinds=("stmt",))
+    resets = cfg.stmt_nodes(lambda st: isinstance(st, ast.Assign) and any(dotted(t) == "subwhere" for t in st.targets) and ((isinstance(st.value, (ast.List, ast.Tuple)) and not st.value.elts) or (isinstance(st.value, ast.Constant) and st.value.value in ("false", "", None))), kinds=("stmt",))
+    false_adds = [a for a in adds if any(isinstance(k, ast.Constant) and k.value == "false" for k in ast.walk(cfg.ast_of(a))) and not any(isinstance(n, ast.Name) and n.id == "subwhere" for n in ast.walk(cfg.ast_of(a)))]
+    for h in handlers:
+        hn = [n for n in cfg.nodes_of(h)]
+        path = cfg.find_path(hn, [a for a in adds if a not in false_adds], avoid_nodes=set(resets) | set(false_adds), kinds=NORMAL)
+        if path:
+            ctx.bad(finding_at(prop, rid, h, "after evaluate_filter raised ValueError the clauses it had already appended are still joined into the WHERE: the unusable member "
+                               "(`authors: []`, `kinds: []`) is ignored instead of making the filter match nothing"))
+        else:
+            ctx.ok(rid, h, "an unusable filter is reduced to `false`")
+
+
 def run(program, ctx):
     from ..lib import rule_awaited
 
@@ -837,6 +889,8 @@ def run(program, ctx):
     rule_cmp(program, ctx)
     rule_tagindex(program, ctx)
     rule_emptylist(program, ctx)
+    rule_modelconfig(program, ctx)
+    rule_badfilter(program, ctx)
     ctx.not_decided += [
         "that the assembled WHERE clause / index scan is semantically NIP-01 matching for all stores (LEFT JOIN, LIKE prefixes, scanner arithmetic)",
         "that only accepted events are in the store (C03/C06)",
